@@ -81,6 +81,79 @@ def reformat(root):
 
 TRANSFORMS = {"reformat": reformat, "rename_locals": rename_locals}
 
+
+
+def reverse_methods(root):
+    """within every class body, the method definitions change places (first <-> last ...); other statements stay where they
+    are.  Classes whose body refers to one of its own functions by bare name (e.g. `x = staticmethod(f)`) are left alone."""
+    n = 0
+    for f in glob.glob(os.path.join(root, "dask_expr", "**", "*.py"), recursive=True):
+        if os.sep + "tests" + os.sep in f:
+            continue
+        tree = ast.parse(open(f).read())
+        for c in ast.walk(tree):
+            if not isinstance(c, ast.ClassDef):
+                continue
+            slots = [i for i, s in enumerate(c.body) if isinstance(s, (ast.FunctionDef, ast.AsyncFunctionDef))]
+            names = {c.body[i].name for i in slots}
+            if len(names) != len(slots):
+                continue  # property setters / overloads: same name twice
+            others = [s for i, s in enumerate(c.body) if i not in slots]
+            if any(isinstance(x, ast.Name) and x.id in names for s in others for x in ast.walk(s)):
+                continue
+            # decorators referring to siblings (@x.setter)
+            if any(isinstance(x, ast.Name) and x.id in names for i in slots for d in c.body[i].decorator_list for x in ast.walk(d)):
+                continue
+            fns = [c.body[i] for i in slots][::-1]
+            for i, fn in zip(slots, fns):
+                c.body[i] = fn
+            n += len(slots)
+        with open(f, "w") as fh:
+            fh.write(ast.unparse(tree) + "\n")
+    return n
+
+
+def reverse_module_functions(root):
+    """module-level function definitions change places among themselves (classes, assignments and imports stay): definition
+    order of functions is irrelevant in Python as long as nothing at import time calls them - modules where a top-level
+    statement calls or references a module function are left alone."""
+    n = 0
+    for f in glob.glob(os.path.join(root, "dask_expr", "**", "*.py"), recursive=True):
+        if os.sep + "tests" + os.sep in f:
+            continue
+        tree = ast.parse(open(f).read())
+        slots = [i for i, s in enumerate(tree.body) if isinstance(s, ast.FunctionDef) and not s.decorator_list]
+        names = {tree.body[i].name for i in slots}
+        others = [s for i, s in enumerate(tree.body) if i not in slots]
+        used_at_import = set()
+        for s in others:
+            if isinstance(s, (ast.FunctionDef, ast.AsyncFunctionDef)):
+                scan = s.decorator_list + s.args.defaults + [d for d in s.args.kw_defaults if d is not None]
+            elif isinstance(s, ast.ClassDef):
+                scan = [x for x in s.body if not isinstance(x, (ast.FunctionDef, ast.AsyncFunctionDef))] + s.decorator_list + s.bases
+                for m in s.body:
+                    if isinstance(m, (ast.FunctionDef, ast.AsyncFunctionDef)):
+                        scan += m.decorator_list + m.args.defaults + [d for d in m.args.kw_defaults if d is not None]
+            else:
+                scan = [s]
+            for node in scan:
+                for x in ast.walk(node):
+                    if isinstance(x, ast.Name) and x.id in names:
+                        used_at_import.add(x.id)
+        keep = [i for i in slots if tree.body[i].name not in used_at_import]
+        # defaults of the functions themselves may refer to earlier functions
+        keep = [i for i in keep if not any(isinstance(x, ast.Name) and x.id in names for d in tree.body[i].args.defaults + [k for k in tree.body[i].args.kw_defaults if k is not None] for x in ast.walk(d))]
+        fns = [tree.body[i] for i in keep][::-1]
+        for i, fn in zip(keep, fns):
+            tree.body[i] = fn
+        n += len(keep)
+        with open(f, "w") as fh:
+            fh.write(ast.unparse(tree) + "\n")
+    return n
+
+
+TRANSFORMS.update({"reverse_methods": reverse_methods, "reverse_module_functions": reverse_module_functions})
+
 if __name__ == "__main__":
     import sys
 
